@@ -31,7 +31,8 @@ MANIFEST = {
                   'def-use from datastore reads to datastore writes, covering `with` regions, '
                   'typestate-aware conflict test; lock-order graph incl. Pythia re-entry; '
                   'lock-coverage lint of both datastores'
-                  '; lock-key kind inference (owner/study/trial) from the uses of the key expression, sibling cross-check per lock table'),
+                  '; lock-key kind inference (owner/study/trial) from the uses of the key expression, sibling cross-check per lock table'
+                  '; RPC-to-RPC re-entry edges in the lock-order graph'),
     'level_text': (
         'Static: for every pair of conflicting read-modify-write sequences of the servicer the '
         'locksets held across the whole sequence intersect; the lock-order graph is acyclic; '
